@@ -49,6 +49,7 @@ def summarise(run_once, max_paths=64, assuming=()):
         sub.events = c.events
         sub.effects = c.effects
         sub._idx = c._idx
+        sub.reach = []
         for k, v in c.__dict__.items():  # task-level attachments (e.g. scan info)
             if k not in sub.__dict__:
                 sub.__dict__[k] = v
@@ -67,6 +68,8 @@ def summarise(run_once, max_paths=64, assuming=()):
         if outcome is None:
             continue
         pc = sub.hyps[base + len(assuming):]
+        for label, nh, cond in sub.reach:  # reachability guards of the fragment, under its path
+            c.reach.append((label, base, T.and_(*(sub.hyps[base:nh] + [cond]))))
         for ob in sub.obligations:
             prem = sub.hyps[base:ob.nhyps]
             goal = T.implies(T.and_(*prem), ob.goal) if prem else ob.goal
